@@ -556,6 +556,11 @@ def sub_arg(p, i, cond):
                 return "subtraction guarded by a dominating comparison"
         if t[0] == "bin" and t[1] == "Eq" and v == 0 and t[3][0] == "c" and t[3][2] == 0 and b0 == ("c", b0[1], 1) and strip_wrappers(t[2]) == strip_wrappers(a):
             return "x-1 under x != 0"
+        # `match x { 0 => .., _ => x -= 1 }`: the otherwise edge of a switch on x that lists every value below the subtrahend
+        if b0[0] == "c" and isinstance(b0[2], int) and strip_wrappers(t) == strip_wrappers(a) and not isinstance(v, (int, bool)) and listed and set(range(b0[2])) <= set(listed):
+            return "x-c on the otherwise edge of a match on x that lists 0..c-1"
+        if b0[0] == "c" and isinstance(b0[2], int) and strip_wrappers(t) == strip_wrappers(a) and isinstance(v, int) and not isinstance(v, bool) and v >= b0[2]:
+            return "x-c in the arm of a match on x for a value >= c"
     return None
 
 
